@@ -2,16 +2,20 @@ package c18
 
 import (
 	"bytes"
+	"context"
 	"crypto/sha256"
 	"encoding/base64"
 	"encoding/binary"
+	"errors"
 	"fmt"
 	"io"
 	"net"
 	"net/http"
 	"net/http/httptest"
+	"sort"
 	"strings"
 	"sync"
+	"sync/atomic"
 	"testing"
 	"time"
 
@@ -45,6 +49,36 @@ const (
 
 var alphabet = []string{s200, s401Neg, s401Reject, s401Basic, s302Same, s302Other, s500}
 
+// redirect policies an application may have installed in the http.Client it hands to spnego.NewClient
+const (
+	polNone    = "none"          // CheckRedirect == nil
+	polAllow   = "allow"         // always returns nil
+	polAllowN  = "allow-below-n" // returns an error once len(via) >= n
+	polUseLast = "use-last"      // returns http.ErrUseLastResponse
+	polRefuse  = "refuse"        // returns an error of its own
+)
+
+// transports
+const (
+	trDefault      = "default"        // http.Client.Transport == nil (the process-wide default transport)
+	trFresh        = "fresh"          // a new http.Transport without limits
+	trOneConn      = "one-conn"       // MaxConnsPerHost: 1
+	trOneConnClose = "one-conn-close" // MaxConnsPerHost: 1, DisableKeepAlives
+	trShared       = "shared-limited" // one transport with MaxConnsPerHost: N shared by N concurrent calls
+)
+
+// stall watchdog: a call during which nothing happens (no request reaches a server, no body is read, no response is written, Do does
+// not return) for stallQuiet of real time is only SUSPECTED to hang; it is cancelled and run again alone after all other work has
+// finished, and counts as a violation only if it then makes no progress for stallQuietConfirm either.
+const (
+	stallQuiet        = 4 * time.Second
+	stallQuietConfirm = 15 * time.Second
+	maxSuspectsClass  = 4 // after this many suspects of a transport class the rest of that class is skipped (and counted)
+	maxConfirmations  = 2
+	confirmStall      = "stall"   // judge is looking at the second execution of a suspected hang
+	confirmGaveUp     = "gave-up" // judge is looking at the second execution of a call that gave up on a challenge with an error
+)
+
 type reqRec struct {
 	Host     string `json:"host"`
 	Method   string `json:"method"`
@@ -59,13 +93,15 @@ type reqRec struct {
 
 // run is the state of one scripted server run (shared by the two listeners).
 type run struct {
-	id     string
-	mu     sync.Mutex
-	prefix []string
-	tail   string
-	reqs   []reqRec
-	urlA   string
-	urlB   string
+	id       string
+	mu       sync.Mutex
+	prefix   []string
+	tail     string
+	reqs     []reqRec
+	urlA     string
+	urlB     string
+	chalBody int          // bytes of body sent with every 401
+	ticks    atomic.Int64 // progress events (request arrived, body read, response written, redirect policy consulted)
 }
 
 func (rn *run) symbol(i int) string {
@@ -84,7 +120,15 @@ type world struct {
 	srvA *httptest.Server // 127.0.0.1
 	srvB *httptest.Server // localhost
 	runs sync.Map         // run id -> *run
-	seq  int
+	seq  atomic.Int64
+}
+
+func challengeBody(n int) string {
+	const msg = "Unauthorised.\n"
+	if n <= len(msg) {
+		return msg[:n]
+	}
+	return msg + strings.Repeat("x", n-len(msg))
 }
 
 func (w *world) handler(host string) http.Handler {
@@ -96,6 +140,8 @@ func (w *world) handler(host string) http.Handler {
 			return
 		}
 		rn := v.(*run)
+		rn.ticks.Add(1)
+		defer rn.ticks.Add(1)
 		rn.mu.Lock()
 		i := len(rn.reqs)
 		sym := rn.symbol(i)
@@ -113,13 +159,15 @@ func (w *world) handler(host string) http.Handler {
 			case s401Neg:
 				rw.Header().Set("WWW-Authenticate", "Negotiate")
 				rw.WriteHeader(401)
-				io.WriteString(rw, "Unauthorised.\n")
+				io.WriteString(rw, challengeBody(rn.chalBody))
 			case s401Reject:
 				rw.Header().Set("WWW-Authenticate", "Negotiate oQcwBaADCgEC")
 				rw.WriteHeader(401)
+				io.WriteString(rw, challengeBody(rn.chalBody))
 			case s401Basic:
 				rw.Header().Set("WWW-Authenticate", `Basic realm="x"`)
 				rw.WriteHeader(401)
+				io.WriteString(rw, challengeBody(rn.chalBody))
 			case s302Same:
 				base := rn.urlA
 				if host == "B" {
@@ -146,6 +194,7 @@ func (w *world) handler(host string) http.Handler {
 		}
 		h := sha256.New()
 		n, err := io.Copy(h, rq.Body)
+		rn.ticks.Add(1)
 		rn.mu.Lock()
 		rn.reqs[i].BodyLen = int(n)
 		rn.reqs[i].BodySHA = fmt.Sprintf("%x", h.Sum(nil))
@@ -205,6 +254,153 @@ func (w *world) close() {
 	w.ep.Close()
 }
 
+type script struct {
+	prefix []string
+	tail   string
+}
+
+func (sc script) key() string { return fmt.Sprintf("%s|%s", strings.Join(sc.prefix, ","), sc.tail) }
+
+// caseCfg is one fully determined call: the script, the request and the application's http.Client configuration.
+type caseCfg struct {
+	ck        string // replay key (script key, or group key for concurrent calls)
+	sc        script
+	method    string
+	size      int
+	explicit  bool
+	chunked   bool
+	other     string // Authorization header of another scheme set by the caller
+	body      []byte
+	policy    string
+	policyN   int
+	transport string
+	shared    *http.Transport // trShared only
+	sharedN   int
+	timeout   time.Duration // http.Client.Timeout (0 = none)
+	chalBody  int
+	member    string // "" or "member=i-of-n" in a concurrent group
+}
+
+// deriveCase draws everything but the script from PRNG streams keyed by the script.
+func deriveCase(sc script) caseCfg {
+	ck := sc.key()
+	c := caseCfg{ck: ck, sc: sc}
+	rnd := vh.NewRand("c18", ck)
+	c.method = vh.Pick(rnd, "GET", "HEAD", "POST", "POST")
+	if c.method == "POST" {
+		c.size = vh.Pick(rnd, 0, 1, 4096, 300*1024, 1<<20)
+	}
+	c.explicit = rnd.Bool()
+	c.chunked = c.method == "POST" && rnd.Intn(3) == 0
+	c.body = rnd.Bytes(c.size)
+	// some callers hand over a request that already carries a credential of another scheme
+	c.other = vh.Pick(rnd, "", "", "", "Basic dXNlcjpwYXNzd29yZA==", "Bearer eyJhbGciOiJub25lIn0.e30.")
+	// the application's http.Client (separate stream: the draws above stay what they were)
+	cr := vh.NewRand("c18client", ck)
+	c.policy = vh.Pick(cr, polNone, polNone, polNone, polNone, polAllow, polAllow, polAllowN, polAllowN, polUseLast, polRefuse)
+	c.policyN = 1 + cr.Intn(5)
+	c.transport = vh.Pick(cr, trDefault, trDefault, trDefault, trFresh, trOneConn, trOneConn, trOneConnClose)
+	c.timeout = vh.Pick(cr, 60*time.Second, 60*time.Second, 0)
+	c.chalBody = vh.Pick(cr, 0, 14, 14, 14, 3000, 70000)
+	return c
+}
+
+func (c caseCfg) full(et int32) string {
+	s := fmt.Sprintf("%s/m=%s/size=%d/chunked=%v/explicit=%v/et=%d", c.ck, c.method, c.size, c.chunked, c.explicit, et)
+	if c.member != "" {
+		s += "/" + c.member + "/script=" + c.sc.key()
+	}
+	return s
+}
+
+func (c caseCfg) limited() bool {
+	return c.transport == trOneConn || c.transport == trOneConnClose || c.transport == trShared
+}
+
+func (c caseCfg) class() string {
+	if c.limited() {
+		return "limited-connections"
+	}
+	return "unlimited-connections"
+}
+
+// outcome is what one execution of a case produced.
+type outcome struct {
+	reqs      []reqRec
+	status    int // 0 if Do returned no response
+	derr      error
+	pnc       bool
+	pv, pw    string
+	stalled   bool
+	returned  bool // Do returned (after the cancellation, if stalled)
+	policyLog []string
+	trips     []rtRec // what the transport delivered to the http.Client, in order
+}
+
+// rtRec is one round trip as the http.Client saw it (recorded by a wrapper around the transport).
+type rtRec struct {
+	Authed bool   `json:"request_carried_negotiate_token"`
+	Status int    `json:"status,omitempty"`
+	WWW    string `json:"www_authenticate,omitempty"`
+	Err    string `json:"transport_error,omitempty"`
+}
+
+type rtRecorder struct {
+	inner http.RoundTripper
+	mu    sync.Mutex
+	log   []rtRec
+}
+
+func (t *rtRecorder) RoundTrip(rq *http.Request) (*http.Response, error) {
+	rec := rtRec{Authed: strings.HasPrefix(rq.Header.Get("Authorization"), "Negotiate ")}
+	resp, err := t.inner.RoundTrip(rq)
+	if err != nil {
+		rec.Err = err.Error()
+	} else {
+		rec.Status, rec.WWW = resp.StatusCode, resp.Header.Get("WWW-Authenticate")
+	}
+	t.mu.Lock()
+	t.log = append(t.log, rec)
+	t.mu.Unlock()
+	return resp, err
+}
+
+// suspect is a call (or group of calls) that made no progress for stallQuiet; rerun runs it again alone.
+type suspect struct {
+	key   string
+	class string
+	rerun func()
+}
+
+type harness struct {
+	r        *vh.Run
+	mu       sync.Mutex
+	suspects []suspect
+	nClass   map[string]int
+}
+
+func (h *harness) addSuspect(s suspect) {
+	h.mu.Lock()
+	h.suspects = append(h.suspects, s)
+	h.nClass[s.class]++
+	h.mu.Unlock()
+	h.r.Inc("observe_suspected_" + s.class)
+}
+
+func (h *harness) classClosed(class string) bool {
+	h.mu.Lock()
+	defer h.mu.Unlock()
+	return h.nClass[class] >= maxSuspectsClass
+}
+
+// mine: the driver's replay selector is the full case key, which starts with the script (or group) key.
+func mine(r *vh.Run, ck string) bool {
+	if o := r.Only(); o != "" {
+		return o == ck || strings.HasPrefix(o, ck+"/") || strings.HasPrefix(ck, o)
+	}
+	return r.Mine(ck)
+}
+
 func TestProp(t *testing.T) {
 	r := vh.Start("C18")
 	defer r.Finish()
@@ -213,18 +409,18 @@ func TestProp(t *testing.T) {
 		return
 	}
 	r.SetRule("scripted HTTP servers on 127.0.0.1 and localhost answer the k-th request of a spnego.Client.Do call with the k-th symbol of a script: every sequence of length <= L over {200, 401 bare Negotiate, 401 Negotiate+reject token, 401 other scheme, 302 same host, 302 other host, 500} followed by each constant tail " +
-		"(L = 3 quick, 5 thorough; exhaustive), crossed with a seeded choice of method GET/HEAD/POST, body size {0,1,4 KiB,300 KiB,1 MiB}, explicit vs URL-derived SPN and the etype of the service ticket (six worlds). Every request is recorded (headers, body length and SHA-256). " +
-		"Oracle: request count <= 64; a bare Negotiate challenge to an unauthenticated request is followed by a retry carrying a token that the reference acceptor (holding the service key of the intended SPN) accepts, with an RFC 4121 4.1.1 authenticator checksum; the body received with an authenticated request equals the original; Do returns the server's last response or an error. distinct = (script, method, body, spn mode, etype); non-trivial = all")
+		"(L = 3 quick, 5 thorough; exhaustive), crossed with a seeded choice of method GET/HEAD/POST, body size {0,1,4 KiB,300 KiB,1 MiB}, explicit vs URL-derived SPN, the etype of the service ticket (six worlds) and the application's http.Client: redirect policy {none, always allow, allow below n hops, ErrUseLastResponse, refuse}, " +
+		"transport {process default, fresh, MaxConnsPerHost 1 with and without keep-alive}, Client.Timeout {60 s, none}, body sent with a 401 {0, 14, 3000, 70000 bytes}; plus groups of N = 2..4 concurrent calls on one transport with MaxConnsPerHost N. Every request is recorded (headers, body length and SHA-256). " +
+		"Oracle: request count <= 64; Do returns (a call without any progress for 4 s is re-run alone and is a violation if it again makes no progress for 15 s); a bare Negotiate challenge to an unauthenticated request is followed by a retry of that same request (same server, path, method) carrying a token that the reference acceptor (holding the service key of the intended SPN) accepts, with an RFC 4121 4.1.1 authenticator checksum - " +
+		"also when Do returns an error (the simulated KDC is healthy and knows every SPN; only if the transport did deliver the challenge to the http.Client, and confirmed by a second execution alone); the body received with an authenticated request equals the original; Do returns the server's last response or an error. distinct = (script, method, body, spn mode, etype); non-trivial = all")
 	r.Assume("independent acceptor = ref/accept over ref/kmsg/ref/kcrypto with one replay state per Do call (the tokens of one call must be distinct authenticators); the JDK GSS acceptor of DESIGN.md is not wired into this check")
+	r.Assume("the simulated KDC answers every well-formed request and holds all three service principals, so the client has no legitimate reason to give up on a challenge; it decodes requests strictly (RFC 4120 DER), as MIT/Heimdal/JDK do")
+	r.Assume("a hang is judged by real time without progress, confirmed by a second execution alone with a longer quiet period; unconfirmed stalls are counted (observe_stall_not_reproduced), not judged. The same holds for a call that gives up on a delivered challenge with an error (the library's KDC exchange has real-time limits): violation only if a second execution alone does the same")
 	r.Note("a server answering 401 to an unauthenticated request does so before reading the request body (as real servers do)")
 
 	L := 3
 	if vh.Thorough() {
 		L = 5
-	}
-	type script struct {
-		prefix []string
-		tail   string
 	}
 	var scripts []script
 	var gen func(p []string)
@@ -250,79 +446,219 @@ func TestProp(t *testing.T) {
 		defer w.close()
 		worlds = append(worlds, w)
 	}
+	h := &harness{r: r, nClass: map[string]int{}}
+	groups := 24
+	if vh.Thorough() {
+		groups = 240
+	}
 	var wg sync.WaitGroup
 	for wi, w := range worlds {
 		wg.Add(1)
 		go func(wi int, w *world) {
 			defer wg.Done()
 			for si := wi; si < len(scripts); si += len(worlds) {
-				sc := scripts[si]
-				ck := fmt.Sprintf("%s|%s", strings.Join(sc.prefix, ","), sc.tail)
-				if !r.Mine(ck) {
+				c := deriveCase(scripts[si])
+				if !mine(r, c.ck) {
 					continue
 				}
-				rnd := vh.NewRand("c18", ck)
-				method := vh.Pick(rnd, "GET", "HEAD", "POST", "POST")
-				size := 0
-				if method == "POST" {
-					size = vh.Pick(rnd, 0, 1, 4096, 300*1024, 1<<20)
+				if h.classClosed(c.class()) {
+					r.Inc("skipped_after_stall_suspects")
+					continue
 				}
-				explicit := rnd.Bool()
-				runScript(r, w, ck, sc.prefix, sc.tail, method, size, explicit, rnd)
+				h.runCase(w, c, false)
+			}
+			// concurrent calls sharing one connection-limited transport
+			for g := 0; g < groups; g++ {
+				gk := fmt.Sprintf("group%d-et%d", g, w.et)
+				if !mine(r, gk) {
+					continue
+				}
+				if h.classClosed("limited-connections") {
+					r.Inc("skipped_after_stall_suspects")
+					continue
+				}
+				h.runGroup(w, gk, scripts, false)
 			}
 		}(wi, w)
 	}
 	wg.Wait()
+	// suspected hangs: again, alone
+	sort.Slice(h.suspects, func(i, j int) bool { return h.suspects[i].key < h.suspects[j].key })
+	done := map[string]int{}
+	for _, s := range h.suspects {
+		if done[s.class] >= maxConfirmations {
+			r.Inc("observe_suspects_not_rerun_" + s.class)
+			continue
+		}
+		done[s.class]++
+		s.rerun()
+	}
 	r.Exhaustive(fmt.Sprintf("scripts: every prefix of length <= %d over 7 symbols x 7 tails", L))
 	r.Require("authenticated_retries_accepted", 500)
 	r.Require("bodies_replayed_intact", 100)
 	r.Require("large_bodies_replayed_intact", 10)
 	r.Require("final_response_returned", 1000)
 	r.Require("redirects_followed", 200)
+	r.Require("retries_to_the_challenged_target", 300)
+	r.Require("redirects_under_an_application_policy_that_allows", 100)
+	r.Require("redirects_under_an_application_policy_that_refuses", 30)
+	r.Require("challenges_with_body_answered_over_a_single_connection", 40)
+	r.Require("concurrent_calls_on_a_shared_limited_transport", 60)
+	r.Require("concurrent_challenges_with_body_on_a_shared_limited_transport", 10)
 	for _, et := range kcrypto.Etypes {
 		r.Require(fmt.Sprintf("tokens_accepted_et%d", et), 20)
 	}
 }
 
-func runScript(r *vh.Run, w *world, ck string, prefix []string, tail, method string, size int, explicit bool, rnd *vh.Rand) {
-	chunked := method == "POST" && rnd.Intn(3) == 0
-	w.seq++
-	rn := &run{id: fmt.Sprintf("run%d", w.seq), prefix: prefix, tail: tail, urlA: w.srvA.URL, urlB: strings.Replace(w.srvB.URL, "127.0.0.1", "localhost", 1)}
+// runGroup runs N concurrent calls, each through its own spnego client and http.Client, on one transport with MaxConnsPerHost: N.
+func (h *harness) runGroup(w *world, gk string, scripts []script, confirming bool) {
+	rnd := vh.NewRand("c18group", gk)
+	n := 2 + rnd.Intn(3)
+	same := rnd.Bool() // N workers doing the same thing vs. unrelated calls
+	first := scripts[rnd.Intn(len(scripts))]
+	tr := &http.Transport{MaxConnsPerHost: n}
+	defer tr.CloseIdleConnections()
+	cs := make([]caseCfg, n)
+	for i := range cs {
+		sc := first
+		if !same && i > 0 {
+			sc = scripts[rnd.Intn(len(scripts))]
+		}
+		c := deriveCase(sc)
+		c.ck = gk
+		c.member = fmt.Sprintf("member=%d-of-%d", i, n)
+		c.transport, c.shared, c.sharedN = trShared, tr, n
+		c.policy = vh.Pick(rnd, polNone, polNone, polAllow)
+		if c.size > 300*1024 {
+			c.size = 300 * 1024
+			c.body = c.body[:c.size]
+		}
+		cs[i] = c
+	}
+	outs := make([]outcome, n)
+	quiet := stallQuiet
+	if confirming {
+		quiet = stallQuietConfirm
+	}
+	var wg sync.WaitGroup
+	for i := range cs {
+		wg.Add(1)
+		go func(i int) {
+			defer wg.Done()
+			h.r.Eval(cs[i].full(w.et), true)
+			outs[i] = execute(w, cs[i], quiet)
+		}(i)
+	}
+	wg.Wait()
+	stalled := false
+	for i := range outs {
+		if outs[i].stalled {
+			stalled = true
+		}
+	}
+	if stalled && !confirming {
+		h.addSuspect(suspect{key: gk, class: "limited-connections", rerun: func() { h.runGroup(w, gk, scripts, true) }})
+		return
+	}
+	for i := range cs {
+		h.r.Inc("concurrent_calls_on_a_shared_limited_transport")
+		h.judge(w, cs[i], outs[i], map[bool]string{true: confirmStall}[confirming])
+	}
+}
+
+func (h *harness) runCase(w *world, c caseCfg, confirming bool) {
+	h.r.Eval(c.full(w.et), true)
+	quiet := stallQuiet
+	if confirming {
+		quiet = stallQuietConfirm
+	}
+	o := execute(w, c, quiet)
+	if o.stalled && !confirming {
+		h.addSuspect(suspect{key: c.full(w.et), class: c.class(), rerun: func() { h.runCase(w, c, true) }})
+		return
+	}
+	h.judge(w, c, o, map[bool]string{true: confirmStall}[confirming])
+}
+
+// execute performs the call and watches its progress.
+func execute(w *world, c caseCfg, quiet time.Duration) (o outcome) {
+	rn := &run{id: fmt.Sprintf("run%d", w.seq.Add(1)), prefix: c.sc.prefix, tail: c.sc.tail, urlA: w.srvA.URL, urlB: strings.Replace(w.srvB.URL, "127.0.0.1", "localhost", 1), chalBody: c.chalBody}
 	w.runs.Store(rn.id, rn)
 	defer func() {
 		// keep the record reachable for straggling requests of an aborted retry; they must not hit a later run
 		go func() { time.Sleep(5 * time.Second); w.runs.Delete(rn.id) }()
 	}()
-	body := rnd.Bytes(size)
-	wantSHA := fmt.Sprintf("%x", sha256.Sum256(body))
-	// some callers hand over a request that already carries a credential of another scheme
-	other := vh.Pick(rnd, "", "", "", "Basic dXNlcjpwYXNzd29yZA==", "Bearer eyJhbGciOiJub25lIn0.e30.")
 	spn := ""
-	if explicit {
+	if c.explicit {
 		spn = explicitSPN
 	}
-	full := fmt.Sprintf("%s/m=%s/size=%d/chunked=%v/explicit=%v/et=%d", ck, method, size, chunked, explicit, w.et)
-	r.Eval(full, true)
+	var polMu sync.Mutex
+	var polLog []string
+	policy := func(req *http.Request, via []*http.Request) error {
+		rn.ticks.Add(1)
+		var err error
+		switch c.policy {
+		case polAllowN:
+			if len(via) >= c.policyN {
+				err = fmt.Errorf("application policy: stopped after %d redirects", c.policyN)
+			}
+		case polUseLast:
+			err = http.ErrUseLastResponse
+		case polRefuse:
+			err = errors.New("application policy: redirects are not followed")
+		}
+		polMu.Lock()
+		if len(polLog) < 16 {
+			polLog = append(polLog, fmt.Sprintf("to %s after %d request(s): %v", req.URL.Path, len(via), err))
+		}
+		polMu.Unlock()
+		return err
+	}
+	ctx, cancel := context.WithCancel(context.Background())
+	defer cancel()
+	rec := &rtRecorder{}
 	var resp *http.Response
 	var derr error
-	doneCh := make(chan struct{})
 	var pnc bool
 	var pv, pw string
+	doneCh := make(chan struct{})
 	go func() {
 		defer close(doneCh)
 		pnc, pv, pw = vh.Guard(func() {
-			hc := &http.Client{Timeout: 60 * time.Second}
+			hc := &http.Client{Timeout: c.timeout}
+			switch c.transport {
+			case trDefault:
+				rec.inner = http.DefaultTransport
+			case trFresh:
+				tr := &http.Transport{}
+				defer tr.CloseIdleConnections()
+				rec.inner = tr
+			case trOneConn:
+				tr := &http.Transport{MaxConnsPerHost: 1}
+				defer tr.CloseIdleConnections()
+				rec.inner = tr
+			case trOneConnClose:
+				tr := &http.Transport{MaxConnsPerHost: 1, DisableKeepAlives: true}
+				defer tr.CloseIdleConnections()
+				rec.inner = tr
+			case trShared:
+				rec.inner = c.shared
+			}
+			hc.Transport = rec
+			if c.policy != polNone {
+				hc.CheckRedirect = policy
+			}
 			sc := spnego.NewClient(w.cl, hc, spn)
 			var rd io.Reader
-			if method == "POST" {
-				rd = bytes.NewReader(body)
-				if chunked {
+			if c.method == "POST" {
+				rd = bytes.NewReader(c.body)
+				if c.chunked {
 					rd = struct{ io.Reader }{rd} // length unknown to net/http: Transfer-Encoding: chunked
 				}
 			}
-			rq, _ := http.NewRequest(method, rn.urlA+"/"+rn.id+"/start", rd)
-			if other != "" {
-				rq.Header.Set("Authorization", other)
+			rq, _ := http.NewRequestWithContext(ctx, c.method, rn.urlA+"/"+rn.id+"/start", rd)
+			if c.other != "" {
+				rq.Header.Set("Authorization", c.other)
 			}
 			resp, derr = sc.Do(rq)
 			if resp != nil && resp.Body != nil {
@@ -331,21 +667,88 @@ func runScript(r *vh.Run, w *world, ck string, prefix []string, tail, method str
 			}
 		})
 	}()
-	select {
-	case <-doneCh:
-	case <-time.After(150 * time.Second):
-		r.Inconclusive("Do did not return within 150 s for " + full)
-		return
+	tick := time.NewTicker(50 * time.Millisecond)
+	defer tick.Stop()
+	last, lastChange := int64(-1), time.Now()
+wait:
+	for {
+		select {
+		case <-doneCh:
+			o.returned = true
+			break wait
+		case <-tick.C:
+			if n := rn.ticks.Load(); n != last {
+				last, lastChange = n, time.Now()
+				continue
+			}
+			if time.Since(lastChange) < quiet {
+				continue
+			}
+			o.stalled = true
+			cancel() // releases the call: the goroutine must not outlive the case
+			select {
+			case <-doneCh:
+				o.returned = true
+			case <-time.After(30 * time.Second):
+			}
+			break wait
+		}
 	}
 	rn.mu.Lock()
-	reqs := append([]reqRec{}, rn.reqs...)
+	o.reqs = append([]reqRec{}, rn.reqs...)
 	rn.mu.Unlock()
-	d := map[string]any{"case": full, "script": ck, "method": method, "body_size": size, "chunked": chunked, "explicit_spn": explicit, "authorization_set_by_the_caller": other, "etype": w.et, "requests": trimReqs(reqs), "request_count": len(reqs), "do_error": fmt.Sprint(derr)}
-	if resp != nil {
-		d["do_status"] = resp.StatusCode
+	polMu.Lock()
+	o.policyLog = append([]string{}, polLog...)
+	polMu.Unlock()
+	rec.mu.Lock()
+	o.trips = append([]rtRec{}, rec.log...)
+	rec.mu.Unlock()
+	if o.returned {
+		o.derr, o.pnc, o.pv, o.pw = derr, pnc, pv, pw
+		if resp != nil {
+			o.status = resp.StatusCode
+		}
 	}
-	if pnc {
-		r.Violation(fmt.Sprintf("C18|panic|%s|%s", pw, vh.PanicClass(pv)), "spnego client panicked: "+pv, d)
+	return o
+}
+
+func (h *harness) judge(w *world, c caseCfg, o outcome, confirming string) {
+	r := h.r
+	reqs, derr, tail, method, size, explicit, chunked := o.reqs, o.derr, c.sc.tail, c.method, c.size, c.explicit, c.chunked
+	wantSHA := fmt.Sprintf("%x", sha256.Sum256(c.body))
+	full := c.full(w.et)
+	d := map[string]any{"case": full, "script": c.sc.key(), "method": method, "body_size": size, "chunked": chunked, "explicit_spn": explicit, "authorization_set_by_the_caller": c.other, "etype": w.et, "requests": trimReqs(reqs), "request_count": len(reqs), "do_error": fmt.Sprint(derr),
+		"application_redirect_policy": c.policy, "transport": c.transport, "client_timeout": c.timeout.String(), "bytes_sent_with_401": c.chalBody}
+	if c.policy == polAllowN {
+		d["application_redirect_policy_n"] = c.policyN
+	}
+	if len(o.policyLog) > 0 {
+		d["application_redirect_policy_calls"] = o.policyLog
+	}
+	if c.transport == trShared {
+		d["max_conns_per_host"] = c.sharedN
+		d["group_member"] = c.member
+	}
+	if o.status != 0 {
+		d["do_status"] = o.status
+	}
+	if o.stalled && confirming != confirmStall {
+		r.Inc("observe_stall_while_confirming_another_suspicion")
+		return
+	}
+	if o.stalled {
+		// only reached in the confirming execution: the call made no progress twice, the second time alone
+		d["quiet_period_first_execution"] = stallQuiet.String()
+		d["quiet_period_second_execution_alone"] = stallQuietConfirm.String()
+		d["returned_after_cancellation"] = o.returned
+		r.Violation("C18|no-return|"+c.class(), fmt.Sprintf("Do neither returned nor caused any request for %v (and for %v in a second execution alone) after %d request(s); the call had to be cancelled", stallQuiet, stallQuietConfirm, len(reqs)), d)
+		return
+	}
+	if confirming == confirmStall {
+		r.Inc("observe_stall_not_reproduced")
+	}
+	if o.pnc {
+		r.Violation(fmt.Sprintf("C18|panic|%s|%s", o.pw, vh.PanicClass(o.pv)), "spnego client panicked: "+o.pv, d)
 		return
 	}
 	if len(reqs) > maxRequests {
@@ -355,16 +758,30 @@ func runScript(r *vh.Run, w *world, ck string, prefix []string, tail, method str
 	// per request checks. The acceptor keeps its replay state for the whole Do call: the tokens of one call (one per challenge,
 	// e.g. along a redirect chain on one host) must be distinct authenticators, or the second one is a replay to the server.
 	replay := map[string]bool{}
+	sawRedirect, challengedWithBody := false, false
 	for i, q := range reqs {
 		if q.Response == s302Same || q.Response == s302Other {
+			sawRedirect = true
 			if i+1 < len(reqs) {
 				r.Inc("redirects_followed")
 			}
 		}
 		authed := strings.HasPrefix(q.Auth, "Negotiate ")
-		if i > 0 && reqs[i-1].Response == s401Neg && !strings.HasPrefix(reqs[i-1].Auth, "Negotiate ") && !authed {
-			r.Violation("C18|retry-without-token", "the request following a Negotiate challenge carries no Authorization: Negotiate token", d)
-			return
+		if i > 0 && reqs[i-1].Response == s401Neg && !strings.HasPrefix(reqs[i-1].Auth, "Negotiate ") {
+			p := reqs[i-1]
+			if !authed {
+				r.Violation("C18|retry-without-token", "the request following a Negotiate challenge carries no Authorization: Negotiate token", d)
+				return
+			}
+			// the retry is the challenged request again: same server, same path, same method
+			if q.Host != p.Host || q.Path != p.Path || q.Method != p.Method {
+				r.Violation("C18|retry-not-to-challenged-target", fmt.Sprintf("server %s challenged %s %s; the request that followed with a token is %s %s on server %s", p.Host, p.Method, p.Path, q.Method, q.Path, q.Host), d)
+				return
+			}
+			r.Inc("retries_to_the_challenged_target")
+			if c.chalBody > 0 && p.Method != "HEAD" {
+				challengedWithBody = true
+			}
 		}
 		if !authed {
 			continue
@@ -404,16 +821,50 @@ func runScript(r *vh.Run, w *world, ck string, prefix []string, tail, method str
 			}
 		}
 	}
-	// a challenge to an unauthenticated request must have been followed by a retry, unless Do returned an error
-	if n := len(reqs); n > 0 && derr == nil {
+	// a challenge to an unauthenticated request must have been followed by a retry. The simulated KDC is healthy and knows the SPN,
+	// so an error from Do does not excuse a missing retry - unless the challenge never reached the client (a server that answers
+	// before reading a large body may reset the connection under the client's write; the transport then reports an error).
+	if n := len(reqs); n > 0 {
 		last := reqs[n-1]
 		if last.Response == s401Neg && !strings.HasPrefix(last.Auth, "Negotiate ") {
-			r.Violation("C18|no-retry-after-challenge", "Do returned the bare Negotiate challenge without an authenticated retry and without an error", d)
+			if derr == nil {
+				r.Violation("C18|no-retry-after-challenge", "Do returned the bare Negotiate challenge without an authenticated retry and without an error", d)
+				return
+			}
+			delivered := false
+			if m := len(o.trips); m > 0 {
+				lt := o.trips[m-1]
+				delivered = lt.Err == "" && lt.Status == 401 && lt.WWW == "Negotiate" && !lt.Authed
+			}
+			d["round_trips_seen_by_the_http_client"] = o.trips
+			if !delivered {
+				r.Inc("observe_challenge_lost_in_transport")
+				r.Inc("do_returned_error")
+				return
+			}
+			if confirming != confirmGaveUp {
+				// the library's KDC exchange has real-time limits of its own: the verdict is left to a second execution alone
+				h.addSuspect(suspect{key: full, class: "gave-up-on-challenge", rerun: func() {
+					h.judge(w, c, execute(w, c, stallQuietConfirm), confirmGaveUp)
+				}})
+				return
+			}
+			d["reproduced_in_a_second_execution_alone"] = true
+			if kdc := w.kdcRefusals(3); len(kdc) > 0 {
+				d["last_requests_refused_by_the_simulated_kdc"] = kdc
+			}
+			r.Violation("C18|no-retry-after-challenge|error", "Do gave up on a bare Negotiate challenge with an error although the KDC is healthy and knows the service: no authenticated retry was sent ("+fmt.Sprint(derr)+")", d)
 			return
 		}
+	}
+	if confirming == confirmGaveUp {
+		r.Inc("observe_giving_up_not_reproduced")
+	}
+	if n := len(reqs); n > 0 && derr == nil {
+		last := reqs[n-1]
 		// the value returned is the server's final response
 		wantStatus := map[string]int{s200: 200, s401Neg: 401, s401Reject: 401, s401Basic: 401, s302Same: 302, s302Other: 302, s500: 500}[last.Response]
-		if resp == nil || resp.StatusCode != wantStatus {
+		if o.status != wantStatus {
 			r.Violation("C18|return-not-final-response", fmt.Sprintf("Do returned status %v, the server's last response was %d", d["do_status"], wantStatus), d)
 			return
 		}
@@ -421,9 +872,50 @@ func runScript(r *vh.Run, w *world, ck string, prefix []string, tail, method str
 	} else if derr != nil {
 		r.Inc("do_returned_error")
 	}
+	// what was exercised
+	if sawRedirect {
+		switch c.policy {
+		case polAllow:
+			r.Inc("redirects_under_an_application_policy_that_allows")
+		case polAllowN:
+			if c.policyN > 1 {
+				r.Inc("redirects_under_an_application_policy_that_allows")
+			} else {
+				r.Inc("redirects_under_an_application_policy_that_refuses")
+			}
+		case polUseLast, polRefuse:
+			r.Inc("redirects_under_an_application_policy_that_refuses")
+		}
+	}
+	if challengedWithBody {
+		switch c.transport {
+		case trOneConn, trOneConnClose:
+			r.Inc("challenges_with_body_answered_over_a_single_connection")
+		case trShared:
+			r.Inc("concurrent_challenges_with_body_on_a_shared_limited_transport")
+		}
+	}
 	if len(reqs) > 3 {
 		r.SampleKind("script-"+tail, 1, d)
 	}
+}
+
+// kdcRefusals lists the reasons of the most recent requests the simulated KDC did not answer with a ticket.
+func (w *world) kdcRefusals(n int) []string {
+	var out []string
+	rs := w.k.Requests()
+	for i := len(rs) - 1; i >= 0 && len(out) < n && i >= len(rs)-8; i-- {
+		q := rs[i]
+		switch {
+		case q.DecodeErr != "":
+			out = append(out, "request not decodable: "+q.DecodeErr)
+		case q.TGSErr != "":
+			out = append(out, fmt.Sprintf("TGS-REQ refused (error code %d): %s", q.ReplyCode, q.TGSErr))
+		case q.ReplyCode != 0:
+			out = append(out, fmt.Sprintf("refused with error code %d", q.ReplyCode))
+		}
+	}
+	return out
 }
 
 func trimReqs(rs []reqRec) []reqRec {
